@@ -130,6 +130,40 @@ def _keyword_names(src, rt) -> dict:
     return out
 
 
+def r4_same_obligations(run: Run, rt):
+    import re
+    from . import c04, c10, c11, c12, c13, c14, c15, c16, c17
+    fns = [c04.r2, c10.r1_r4, c11.r1_r3_r5, c11.r2, c11.r9_flatten, c12.helpers, c12.r7, c13.r4, c14.r5, c14.r6, c14.r7, c14.r7_eval_all,
+           c14.r10, c15.r2, c15.r3, c15.r4, c15.r5, c15.r6, c15.r7, c16.r1_r2_r5, c17.r1, c17.r3_r4, c17.r7]
+    lab = re.compile(r'\[(base|template)\]')
+    verdicts = {}          # (rule, construct with the label erased, sub) -> {label: verdict}
+    for fn in fns:
+        sub = Run('tmp', run.tier, run.seed, quiet=True)
+        try:
+            fn(sub, rt)
+        except AnalysisError as e:
+            run.note(f'C20.R4: {fn.__module__.split(".")[-1]}.{fn.__name__} gave up ({e.reason[:80]}); its obligations are not compared')
+        except Exception as e:
+            run.note(f'C20.R4: {fn.__module__.split(".")[-1]}.{fn.__name__} failed ({type(e).__name__}); its obligations are not compared')
+            continue
+        for o in sub.obligations:
+            m = lab.search(o['construct'])
+            if m:
+                verdicts.setdefault((o['rule'], lab.sub('[*]', o['construct']), ''), {})[m.group(1)] = o['verdict']
+        for f in sub.findings:
+            m = lab.search(f['construct'])
+            if m:
+                verdicts.setdefault((f['rule'], lab.sub('[*]', f['construct']), ''), {})[m.group(1)] = 'fails: ' + f['sub']
+    for (rule, construct, _), by in sorted(verdicts.items()):
+        if set(by) != {'base', 'template'}:
+            # an obligation that exists for one copy only (the helper is shaped differently there): nothing to compare
+            continue
+        same = by['base'] == by['template'] or (by['base'].startswith('fails') and by['template'].startswith('fails'))
+        run.check(same, 'C20.R4', f'{rule} {construct}', 'copies-disagree',
+                  f'the obligation {rule} {construct} comes out as "{by["base"]}" for the base class and "{by["template"]}" for the '
+                  f'class template: the two copies do not compute the same thing', fact=by['template'], loc=rt.template.path)
+
+
 MAX_UNDECIDED = 6
 MAX_LOCAL_EDITS = 4
 
@@ -263,6 +297,12 @@ def run(run: Run):
             run.check(ib == it, 'C20.R3', f'{n}/{name}', 'binding-differs',
                       f'free name {name} used by {n} is bound to {ib} in the base module and {it} in the template',
                       fact=f'{name} -> {it}', loc=tmpl.loc(ft))
+    # R4 ---------------------------------------------------------------------------------------
+    # the obligations the other properties evaluate on each copy separately (scan answers, coercion ladders, date arithmetic,
+    # text slicing, ...) must come out the same for both copies: this also covers members whose spellings differ (UNDECIDED above)
+    run.rule('C20.R4', 'both copies meet (or miss) the same per-copy obligations of the other properties')
+    run.guard('C20.R4', r4_same_obligations, run, rt)
+    run.floor('C20.R4', 150)
     run.floor('C20.R1', 40)
     run.floor('C20.R2', 40)
     run.floor('C20.R3', 20)
